@@ -10,3 +10,11 @@ func (h *BaseMappingHandler) VerifAddTraffic(sent, received int64) {
 	h.trafficStats.BytesSent.Add(sent)
 	h.trafficStats.BytesReceived.Add(received)
 }
+
+// VerifReportStats calls the unexported reportStats (what the 30 s tick of reportStatsLoop and the clean-up handler call).
+func (h *BaseMappingHandler) VerifReportStats() { h.reportStats() }
+
+// VerifLocalTraffic returns the handler's local (not yet reported) counters.
+func (h *BaseMappingHandler) VerifLocalTraffic() (int64, int64) {
+	return h.trafficStats.BytesSent.Load(), h.trafficStats.BytesReceived.Load()
+}
